@@ -518,6 +518,15 @@ func makers() []maker {
 			}
 			return it
 		}},
+		// short ids that are not 8 ASCII bytes: '?' matches one CHARACTER (a multi-byte rune or one invalid byte)
+		{"odd-short-id", func(w *world, sc *scenario, st stepShape, r *lib.Rng) *item {
+			shorts := []string{"abcdef\u00e91", "abcde\u00e91", "abcdefg\xff", "\u20ac\u20ac\u20ac\u20ac\u20ac\u20ac\u20ac\u20ac", "abcdefg", "abcdefghi", "ab.cd.ef", "abcd\xe2\x82gh"}
+			sh := shorts[r.Intn(len(shorts))]
+			mb := signedMB(st.name, w.pool[r.Intn(len(w.pool))].Priv)
+			forged := intoto.Signature{KeyID: sh + "00ff", Sig: "00"}
+			mb.Signatures = append([]intoto.Signature{forged}, mb.Signatures...)
+			return &item{name: st.name + "." + sh + ".link", content: dumpMB(mb), label: "odd-short-id"}
+		}},
 		// a directory whose name matches the glob
 		{"directory", func(w *world, sc *scenario, st stepShape, r *lib.Rng) *item {
 			return &item{name: linkName(st.name, fakeID(r)), content: nil, label: "directory"}
@@ -883,6 +892,41 @@ func runImpl(in input, dir string) string {
 	return out
 }
 
+// loader observable: verdict of LoadLinksForLayout, and the key ids it loads per step
+// (observed with all thresholds set to 0 so that the preliminary check cannot hide them)
+func runLoader(in input, dir string) string {
+	one := func() string {
+		return lib.Recover(func() string {
+			out := "LOAD="
+			if _, err := intoto.LoadLinksForLayout(copyLayout(in.Layout), dir); err != nil {
+				out += "REJECT"
+			} else {
+				out += "OK"
+			}
+			l0 := copyLayout(in.Layout)
+			for i := range l0.Steps {
+				l0.Steps[i].Threshold = 0
+			}
+			sm, err := intoto.LoadLinksForLayout(l0, dir)
+			if err != nil {
+				return out + ";KEYS=ERROR"
+			}
+			out += ";KEYS="
+			for _, st := range l0.Steps {
+				out += "(" + st.Name + ":" + strings.Join(lib.SortedKeys(sm[st.Name]), ",") + ")"
+			}
+			return out
+		})
+	}
+	a := one()
+	for i := 0; i < 2; i++ {
+		if b := one(); b != a {
+			return "NONDETERMINISTIC{" + a + " | " + b + "}"
+		}
+	}
+	return a
+}
+
 // ---------------------------------------------------------------- oracle (generator ground truth only)
 
 func oracle(in input) string {
@@ -1019,7 +1063,7 @@ func poolPublic(w *world, id string) (crypto.PublicKey, string) {
 	return nil, ""
 }
 
-func coqModel(w *world, in input, dir string) string {
+func coqModel(w *world, in input, dir string) (string, string) {
 	// layout keys
 	var cands []candKey
 	var keyTerms []string
@@ -1132,9 +1176,11 @@ func coqModel(w *world, in input, dir string) string {
 		stepTerms = append(stepTerms, "step_of "+lib.CoqStr(st.Name)+" "+lib.CoqStrList(st.PubKeys)+" "+
 			lib.CoqList(cc, "cert_constraint")+" "+lib.CoqZ(int64(st.Threshold)))
 	}
+	layoutT := "(layout_of " + lib.CoqList(stepTerms, "step") + " " + lib.CoqList(keyTerms, "str * key") + ")"
+	filesT := lib.CoqList(fileTerms, "str * option env")
 	return "(c02_obs_full " + lib.CoqList(vrows, "str * str * str") + " " + lib.CoqList(certRows, "str * key") + " " +
-		lib.CoqList(ccrows, "str * str * str") + " (layout_of " + lib.CoqList(stepTerms, "step") + " " +
-		lib.CoqList(keyTerms, "str * key") + ") " + lib.CoqList(fileTerms, "str * option env") + ")"
+			lib.CoqList(ccrows, "str * str * str") + " " + layoutT + " " + filesT + ")",
+		"(c02_loaded " + layoutT + " " + filesT + ")"
 }
 
 // ---------------------------------------------------------------- main
@@ -1164,6 +1210,7 @@ func main() {
 			scs = append(scs, randomScenario(w, r.Fork(), mk))
 		}
 		cases := make([]lib.Case, len(scs))
+		loaderCases := make([]lib.Case, len(scs))
 		var wg sync.WaitGroup
 		sem := make(chan struct{}, 14)
 		for i := range scs {
@@ -1181,7 +1228,11 @@ func main() {
 				if !sc.noOracle {
 					c.Oracle = oracle(in)
 				}
-				c.CoqModel = coqModel(w, in, dir)
+				var loaderT string
+				c.CoqModel, loaderT = coqModel(w, in, dir)
+				small := input{Layout: in.Layout, Intermediates: in.Intermediates, Files: in.Files}
+				loaderCases[i] = lib.Case{Klass: "loader", Input: lib.MustJSON(small), Impl: runLoader(in, dir), CoqModel: loaderT,
+					Trivial: len(in.Files) == 0}
 				c.Trivial = len(in.Files) == 0
 				if c.Oracle != "" && c.Impl != c.Oracle && !strings.HasPrefix(sc.klass, "F") {
 					c.Klass = sc.klass + ":" + kindOfDifference(c.Impl, c.Oracle)
@@ -1200,6 +1251,9 @@ func main() {
 		for _, c := range cases {
 			wr.Put(c)
 		}
+		for _, c := range loaderCases {
+			wr.Put(c)
+		}
 		wr.Close()
 	case "replay":
 		b, err := os.ReadFile(os.Args[2])
@@ -1215,6 +1269,10 @@ func main() {
 		if err := json.Unmarshal(b, &c); err != nil {
 			panic(err)
 		}
+		olds, _ := filepath.Glob(filepath.Join(filepath.Dir(os.Args[2]), "replay-dir-*"))
+		for _, o := range olds {
+			os.RemoveAll(o)
+		}
 		dir, _ := os.MkdirTemp(filepath.Dir(os.Args[2]), "replay-dir-")
 		materialise(c.Input, dir)
 		fmt.Println("class:          ", c.Klass)
@@ -1226,7 +1284,11 @@ func main() {
 			fmt.Printf("  step %q threshold %d pubkeys %d constraints %d; honest authorised functionaries (generator): %v\n",
 				st.Name, st.Threshold, len(st.PubKeys), len(st.CertificateConstraints), c.Input.Honest[st.Name])
 		}
-		fmt.Println("implementation: ", runImpl(c.Input, dir))
+		if c.Klass == "loader" {
+			fmt.Println("implementation: ", runLoader(c.Input, dir))
+		} else {
+			fmt.Println("implementation: ", runImpl(c.Input, dir))
+		}
 		if c.Oracle == "" {
 			fmt.Println("oracle:          (none for this class: model comparison only)")
 		} else {
